@@ -229,6 +229,15 @@ def step (d : DState) (ws : List String) : DState × String :=
         match r with
         | .ok => finish { d with ph := release d.ph p } m s!"ok {intact}"
         | _ => (d, "rej model")
+  | ["copy", p] =>
+    -- cache_page_copy: `memcpy (dst, src, cache_page_size (src))`; the cache itself is untouched
+    match lim (parseNat p) 1000000 with
+    | none => (d, "rej parse")
+    | some p => match getH d.ph p with
+      | none => (d, "rej handle")
+      | some pid => match d.m.findPage pid with
+        | some q => finish d d.m s!"ok {q.size} {q.pgno} {q.subno} {q.func} {q.x26} {q.x28} same {q.tag}"
+        | none => (d, "rej model")
   | ["iscached", n, pgno, subno] =>
     match lim (parseNat n) 1000000, lim (parseNat pgno) 0xFFFF, lim (parseNat subno) 0xFFFF with
     | some n, some pgno, some subno => match getH d.nh n with
@@ -277,7 +286,7 @@ def step (d : DState) (ws : List String) : DState × String :=
     ({ d with m := m, deleted := true }, s!"ok leaked pages={m.pages.length} nets={m.nets.length}")
   | w :: _ =>
     if ["sizes", "dump", "addnet", "netref", "netunref", "chsw", "statreset", "ptype", "put", "get", "ref", "unref",
-        "iscached", "hisubno", "foreach", "purge", "setlimit", "delete"].contains w then (d, "rej parse")
+        "iscached", "hisubno", "foreach", "purge", "setlimit", "delete", "copy"].contains w then (d, "rej parse")
     else (d, "rej op")
   | [] => (d, "rej op")
 
